@@ -677,8 +677,19 @@ def initial_points(rng, dim, family):
     return [tuple([0.0] * dim)] + [tuple(k if j == i else 0.0 for j in range(dim)) for i in range(dim)]
 
 
-def next_point(rng, tri, dim, family):
-    """(point, kind) — the next point to insert; may be a duplicate on purpose"""
+def next_point(rng, tri, dim, family, off=None):
+    """(point, kind) — the next point to insert; may be a duplicate on purpose.  `off` translates the families that are
+    generated in absolute coordinates (points derived from existing vertices are in the translated frame already)"""
+    p, kind = _next_point(rng, tri, dim, family)
+    if off is not None and kind in ABSOLUTE_KINDS:
+        p = tuple(x + o for x, o in zip(p, off))
+    return p, kind
+
+
+ABSOLUTE_KINDS = {"random", "random_wide", "lattice", "cosphere", "sphere_centre", "cosphere_rounded"}
+
+
+def _next_point(rng, tri, dim, family):
     verts = tri.vertices
     fam = family
     if family == "mixed":
@@ -806,6 +817,9 @@ def _run_case(spec):
         diag = None if spec.get("diag") is None else [float.fromhex(x) for x in spec["diag"]]
     else:
         init = initial_points(rng, dim, family)
+        off = spec.get("offset")
+        if off is not None:
+            init = [tuple(x + o for x, o in zip(p, off)) for p in init]
         ratio = spec.get("ratio")
         diag = None
         if ratio is not None and len(init) == dim + 1:
@@ -843,7 +857,7 @@ def _run_case(spec):
             kind, mode = o.get("kind", "?"), o.get("mode", "?")
         else:
             for _try in range(50):
-                point, kind = next_point(rng, tri, dim, family)
+                point, kind = next_point(rng, tri, dim, family, spec.get("offset"))
                 if point in tri.vertices or not near_vertex(tri, point):
                     break
             else:
@@ -986,6 +1000,7 @@ def _run_case(spec):
     stats["dim:%d" % dim] += 1
     stats["family:" + family] += 1
     stats["metric:" + ("identity" if diag is None else "ratio<=%d" % (10 if max(diag) / min(diag) <= 10 else 100))] += 1
+    stats["translated" if any(spec.get("offset") or []) else "untranslated"] += 1
     stats["final_simplices_total"] += len(tri.simplices)
     exp = {"dim": dim, "init": [[float(x).hex() for x in p] for p in init],
            "diag": None if diag is None else [float(x).hex() for x in diag], "ops": ops_done}
